@@ -371,4 +371,35 @@ def axisConcat (a b : Axis) : Except Err Axis :=
   | .ordinal l vs, .ordinal l2 ws => if l == l2 then .ok (.ordinal l (vs ++ ws)) else .error .runtime_error
   | a, b => if a == b then .ok a else .error .runtime_error
 
+/-- fold of `concatenate` over the axis metadata of the operands -/
+def axisConcatAll : Axis → List Axis → Except Err Axis
+  | a, [] => .ok a
+  | a, b :: bs => match axisConcat a b with
+      | .ok c => axisConcatAll c bs
+      | .error e => .error e
+
+def setAt {α} : List α → Nat → α → List α
+  | [], _, _ => []
+  | _ :: xs, 0, y => y :: xs
+  | x :: xs, i + 1, y => x :: setAt xs i y
+
+/-- `abtem.concatenate(arrays, axis)` for `0 ≤ axis <` number of ensemble axes: the arrays are joined along the axis, the
+axis metadata of the operands is concatenated (ordinal values appended; any other axis must be equal), every other
+axis and the metadata are those of the first operand; then `from_array_and_metadata` → constructor check -/
+def concat (os : List Obj) (axis : Nat) : Except Err Obj :=
+  match os with
+  | [] => .error .index_error
+  | o :: rest =>
+    if os.any fun p => p.shape.length != o.shape.length || (dropAt p.shape 0 [axis]) != (dropAt o.shape 0 [axis]) then .error .value_error
+    else
+      match axisConcatAll (o.ens.getD axis .unknown) (rest.map fun p => p.ens.getD axis .unknown) with
+      | .error e => .error e
+      | .ok ax =>
+        let outer := prod (o.shape.take axis)
+        let data := (List.range outer).flatMap fun b => os.flatMap fun p =>
+          let inner := prod (p.shape.drop axis)
+          (p.data.drop (b * inner)).take inner
+        let n := (os.map fun p => p.shape.getD axis 0).foldl (· + ·) 0
+        check { o with ens := setAt o.ens axis ax, shape := setAt o.shape axis n, data := data }
+
 end AbtemVerif.ArrObj
